@@ -72,6 +72,17 @@ theorem cinv_stepS (s : St) (j : Nat) (h : CInv s) : CInv (stepS s j) := by
        · left; simp only [safe7, setS, notify] at h ⊢; grind
        · right; exact h)
 
+/-- a producer that is not inside a `wake_stream` moves anywhere, changing queue / reservations / pool count / ghost -/
+theorem cinv_setThr_q (s : St) (t : Nat) (l : PLoc) (q' acc : List Nat) (rs : List (Nat × Nat)) (hd : Nat) (h : CInv s)
+    (hnw : ∀ i, ¬ inWake (s.thr t) i) :
+    CInv (setThr { s with q := q', resv := rs, accepted := acc, held := hd } t l) := by
+  obtain ⟨tokInj, w2, c7⟩ := h
+  refine ⟨tokInj, w2, ?_⟩
+  intro i hi hk
+  rcases c7 i hi hk with h | ⟨t', h⟩
+  · left; exact h
+  · right; refine ⟨t', ?_⟩; simp only [setThr]; grind
+
 set_option hygiene false in
 /-- producer `t` performs the `wake()` of `wake_stream(j)` (or finds no waker) and is done: stream `j` is safe -/
 local macro "cwake_done" : tactic => `(tactic| (
@@ -104,6 +115,17 @@ theorem cinv_stepP (s : St) (t : Nat) (h : CInv s) : CInv (stepP s t) := by
   case done => exact h0
   case aSusp => exact h0
   case zSusp => exact h0
+  case pClm v slot r =>
+    have hnw : ∀ i, ¬ inWake (s.thr t) i := by intro i; rw [hl]; simp [inWake]
+    split
+    · split
+      · exact cinv_setThr_q s t _ _ _ _ s.held h0 hnw
+      · exact h0
+    · exact h0
+  case pSmp slot r =>
+    have hnw : ∀ i, ¬ inWake (s.thr t) i := by intro i; rw [hl]; simp [inWake]
+    simp only [afterPublishR]
+    split <;> exact cinv_setThr_q s t _ s.q s.accepted s.resv s.held h0 hnw
   case cCancel j =>
     refine ⟨tokInj, w2, ?_⟩
     intro i hi hk
@@ -123,17 +145,6 @@ theorem cinv_stepP (s : St) (t : Nat) (h : CInv s) : CInv (stepP s t) := by
   case wRetry j r =>
     have w2j := w2 j
     split <;> cwake_done
-
-/-- a producer that is not inside a `wake_stream` moves anywhere, changing queue / reservations / pool count / ghost -/
-theorem cinv_setThr_q (s : St) (t : Nat) (l : PLoc) (q' acc : List Nat) (rs : List (Nat × Nat)) (hd : Nat) (h : CInv s)
-    (hnw : ∀ i, ¬ inWake (s.thr t) i) :
-    CInv (setThr { s with q := q', resv := rs, accepted := acc, held := hd } t l) := by
-  obtain ⟨tokInj, w2, c7⟩ := h
-  refine ⟨tokInj, w2, ?_⟩
-  intro i hi hk
-  rcases c7 i hi hk with h | ⟨t', h⟩
-  · left; exact h
-  · right; refine ⟨t', ?_⟩; simp only [setThr]; grind
 
 theorem cinv_publish (s : St) (t v : Nat) (acc : List Nat) (hd : Nat) (r : Rule) (len : Nat) (h : CInv s)
     (hnw : ∀ i, ¬ inWake (s.thr t) i) :
@@ -219,6 +230,14 @@ theorem cinv_apply (s : St) (a : Act) (h : CInv s) (hf : tokFresh s a) : CInv (a
       · exact cinv_setThr_q s t _ s.q s.accepted _ s.held h (not_inWake_idle ht)
       · exact cinv_setThr_q s t _ s.q s.accepted s.resv s.held h (not_inWake_idle ht)
     · exact h
+  case claim t v =>
+    simp only [apply]
+    split
+    · rename_i ht
+      split
+      · exact cinv_setThr_q s t _ s.q s.accepted _ s.held h (not_inWake_idle ht)
+      · exact cinv_setThr_q s t _ s.q s.accepted s.resv s.held h (not_inWake_idle ht)
+    · exact h
   case asyncZc t v =>
     simp only [apply]
     split
@@ -233,13 +252,17 @@ theorem cinv_apply (s : St) (a : Act) (h : CInv s) (hf : tokFresh s a) : CInv (a
     · rename_i v lb ht
       have hnw : ∀ i, ¬ inWake (s.thr t) i := by intro i; rw [ht]; simp [inWake]
       split
+      · exact cinv_setThr_q s t _ s.q s.accepted s.resv s.held h hnw
       · split
-        · split <;> exact cinv_setThr_q s t _ _ _ _ s.held h hnw
+        · split
+          · split <;> exact cinv_setThr_q s t _ _ _ _ s.held h hnw
+          · exact h
         · exact h
-      · exact h
     · rename_i v ht
-      rw [afterPublish_eq]
-      exact cinv_publish s t v _ _ _ _ h (by intro i; rw [ht]; simp [inWake])
+      split
+      · exact cinv_setThr_q s t _ s.q s.accepted _ _ h (by intro i; rw [ht]; simp [inWake])
+      · rw [afterPublish_eq]
+        exact cinv_publish s t v _ _ _ _ h (by intro i; rw [ht]; simp [inWake])
     · exact h
   case cancel t j =>
     simp only [apply]
@@ -282,7 +305,9 @@ theorem cinv_run (s : St) (as : List Act) (h : CInv s) (hf : TokRun s as) : CInv
 /-! ## constants of an execution -/
 
 theorem k_stepP (s : St) (t : Nat) : (stepP s t).k = s.k := by
-  unfold stepP; split <;> (try split) <;> rfl
+  unfold stepP; split
+  case h_6 => unfold afterPublishR; split <;> rfl
+  all_goals ((repeat' split) <;> rfl)
 
 theorem k_stepS (s : St) (j : Nat) : (stepS s j).k = s.k := by
   unfold stepS; split <;> (try split) <;> rfl
@@ -304,7 +329,9 @@ theorem k_run (s : St) (as : List Act) : (run s as).k = s.k := by
 /-! ## `keep_streams_running[j]` is only ever cleared -/
 
 theorem keep_stepP_false (s : St) (t j : Nat) (h : s.keep j = false) : (stepP s t).keep j = false := by
-  unfold stepP; split <;> (try split) <;> simp [setThr, notify, h]
+  unfold stepP; split
+  case h_6 => unfold afterPublishR; split <;> simp [setThr, h]
+  all_goals ((repeat' split) <;> simp [setThr, notify, h])
 
 theorem keep_stepS (s : St) (j : Nat) : (stepS s j).keep = s.keep := by
   unfold stepS; split <;> (try split) <;> rfl
